@@ -275,60 +275,79 @@ func runC10(c *Ctx) {
 		c.check(bad == "", "C10.R2", "tag-stride "+m.fnName(findTag), "cursor = infoData+8; cursor += up8(current tag size)", bad, m.pos(findTag.Pos()))
 	}
 	{
+		// In iteration T of the entry loop the entry handed to the visitor lies at
+		// payload + 8 + T*entrySize (entrySize read from the map header at the
+		// payload), and the loop is left when that address reaches payload + size;
+		// however the cursor is kept (a pointer that is advanced, an offset).
 		bad := ""
-		var cur *ssa.Phi
+		var payload, sizeV ssa.Value
 		for _, in := range g.Ins {
-			if phi, ok := in.(*ssa.Phi); ok && isIntegral(phi.Type()) {
-				cur = phi
-			}
-		}
-		var payload ssa.Value
-		for _, in := range g.Ins {
-			if ex, ok := in.(*ssa.Extract); ok && ex.Index == 0 {
-				if _, ok := m.resultOf(ex, findTag, 0); ok {
-					payload = ex
-				}
-			}
-		}
-		if cur == nil || payload == nil {
-			bad = "no cursor / payload value"
-		} else {
-			init, step := false, false
-			for _, e := range cur.Edges {
-				if other, ok := matchAdd(e, func(v ssa.Value) bool { return v == payload }); ok {
-					if k, ok := constInt64(other); ok && k == 8 {
-						init = true
-						continue
-					}
-				}
-				if other, ok := matchAdd(e, func(v ssa.Value) bool { return v == ssa.Value(cur) }); ok {
-					if valueReads(other, entrySizeF, payload) {
-						step = true
+			if ex, ok := in.(*ssa.Extract); ok {
+				if _, ok := m.resultOf(ex, findTag, ex.Index); ok {
+					if ex.Index == 0 {
+						payload = ex
 					} else {
-						bad = "the entry cursor advances by " + z.Of(other).String() + ", expected the entrySize field of this tag's header (entries may be larger than the Go struct)"
+						sizeV = ex
 					}
-					continue
 				}
-				bad = "the entry cursor starts at " + z.Of(e).String() + ", expected payload+8 (the map header is two dwords long)"
 			}
-			if bad == "" && (!init || !step) {
-				bad = "the entry cursor does not start 8 bytes into the payload and advance by the header's entrySize"
+		}
+		var visCall *ssa.Call
+		for _, in := range g.Ins {
+			if call, ok := in.(*ssa.Call); ok && call.Common().Value == ssa.Value(visitMem.Params[0]) {
+				visCall = call
 			}
-			// loop end: cursor != payload + size
-			if bad == "" {
-				okEnd := false
-				for _, f := range g.AllEdgeFacts() {
-					if f.Y != nil && (f.Op == token.NEQ || f.Op == token.LSS) && f.X == ssa.Value(cur) {
-						if other, ok := matchAdd(f.Y, func(v ssa.Value) bool { return v == payload }); ok {
-							if _, ok := m.resultOf(stripConv(other), findTag, 1); ok {
-								okEnd = true
-							}
+		}
+		var entryAddr ssa.Value
+		if visCall != nil && len(visCall.Common().Args) == 1 {
+			entryAddr = ptrFromUintptr(visCall.Common().Args[0])
+		}
+		switch {
+		case payload == nil || sizeV == nil:
+			bad = "no payload / size value"
+		case entryAddr == nil:
+			bad = "the entry handed to the visitor is not made from an address"
+		default:
+			lf, inLoop := g.loopFormAt(z, visCall.Block())
+			if !inLoop {
+				bad = "the visitor is not called in a loop over the entries"
+			} else {
+				addrP := z.Of(entryAddr)
+				first, step, okA := splitT(addrP)
+				okStep := false
+				for _, sv := range lf.SymSteps {
+					if valueReads(sv, entrySizeF, payload) && z.Of(sv).equal(step) {
+						okStep = true
+					}
+				}
+				switch {
+				case !okA || !first.equal(z.Of(payload).add(polyConst(8), 1)):
+					bad = "the entry cursor starts at " + first.String() + ", expected payload+8 (the map header is two dwords long)"
+				case !okStep:
+					bad = "the entry cursor advances by " + step.String() + ", expected the entrySize field of this tag's header (entries may be larger than the Go struct)"
+				default:
+					// loop end: entry address != payload + size (both sides may have the same amount subtracted)
+					want := addrP.add(z.Of(payload), -1).add(z.Of(sizeV), -1)
+					okEnd := false
+					for blk := range lf.Body {
+						ifi, ok := blk.Instrs[len(blk.Instrs)-1].(*ssa.If)
+						if !ok || len(blk.Succs) != 2 || lf.Body[blk.Succs[0]] == lf.Body[blk.Succs[1]] {
+							continue
+						}
+						f, ok := condFact(ifi.Cond, lf.Body[blk.Succs[0]])
+						if !ok || f.Y == nil || (f.Op != token.NEQ && f.Op != token.LSS) {
+							continue
+						}
+						d := z.Of(f.X).add(z.Of(f.Y), -1)
+						if d.equal(want) || (f.Op == token.NEQ && d.equal(Poly{}.add(want, -1))) {
+							okEnd = true
 						}
 					}
+					if !okEnd {
+						bad = "the entry loop does not end at payload + size"
+					}
 				}
-				if !okEnd {
-					bad = "the entry loop does not end at payload + size"
-				}
+				lf.Done()
 			}
 		}
 		c.check(bad == "", "C10.R2", "entry-stride "+m.fnName(visitMem), "cursor = payload+8; cursor += header.entrySize; until payload+size", bad, m.pos(visitMem.Pos()))
